@@ -26,7 +26,7 @@ from ..cfg import explore, must_facts, holds, canon_fact
 from ..mutate import mutate, remove_stmts, replace_expr, replace_stmt, parse_stmt, parse_expr
 from ..model import AnalysisError
 from ..x_emit import emissions, PH
-from ..x_valuewalk import single_assignment
+from ..x_valuewalk import single_assignment, alias_expand, xdotted, xunparse
 from .c19 import ParseCtx, _writer_param, T
 
 TECHNIQUE = "typestate over emitted-line events on the generator's CFG + who-may-write/who-may-construct + with-scope containment"
@@ -86,13 +86,11 @@ def rule_escape_before_append(ck):
             continue
         c = calls[0]
         shape = st.targets[0].id == var and len(c.args) == 1 and isinstance(c.args[0], ast.Name) and c.args[0].id == var and not c.keywords
-        src = q.dotted(e.exprs[0]) == cur
         ck.ob(rid, g, e.call, shape, "the escaping line rebinds the value variable %s to <function>(%s)" % (var, var))
-        ck.ob(rid, g, e.call, src, "the escaping function is the autoescape of the template currently being generated (%s)" % cur)
-        if shape and src:
+        if shape:
             escapes.append(e)
     cfg = g.cfg
-    esc_ids = {n.id for e in escapes for n in cfg.nodes_for(e.call)}
+    esc_nodes = {n.id: e for e in escapes for n in cfg.nodes_for(e.call)}
     other_ids = {n.id for e in ems if e not in escapes and e not in app_ems and _assigns_var(e, var) for n in cfg.nodes_for(e.call)}
     app_ids = {n.id: e for e in app_ems for n in cfg.nodes_for(e.call)}
     ck.floor(rid, len(other_ids), 1, "value-binding emissions")
@@ -102,19 +100,60 @@ def rule_escape_before_append(ck):
         if isinstance(st, (ast.Assign, ast.AugAssign, ast.AnnAssign, ast.Delete)) and any(p == "self.raw" or p.startswith(w + ".current_template") or p == w for p in q.assigned_paths(st)):
             raise AnalysisError("_Expression.generate rebinds %s / %s.current_template; exemption tracking not valid" % (raw_t, w))
 
-    # abstract value: (value variable holds the escaped form, outcome of the raw test, outcome of the is-None test)
+    import copy
+
+    class _Sub(ast.NodeTransformer):
+        def __init__(self, env):
+            self.env = dict(env)
+
+        def visit_Name(self, node):
+            if isinstance(node.ctx, ast.Load) and node.id in self.env and self.env[node.id] != "?":
+                return ast.parse(self.env[node.id], mode="eval").body
+            return node
+
+    def resolve(expr, env):
+        return q.unparse(_Sub(env).visit(copy.deepcopy(expr)))
+
+    # abstract value: (value holds the escaped form, raw outcome, is-None outcome, bindings of simple locals, bad escape source seen)
     def transfer(n, val):
-        esc, raw, none = val
+        esc, raw, none, env, bad = val
+        if n.kind == "stmt" and isinstance(n.ast, (ast.Assign, ast.AnnAssign)) and n.ast.value is not None:
+            tg = n.ast.targets if isinstance(n.ast, ast.Assign) else [n.ast.target]
+            if len(tg) == 1 and isinstance(tg[0], ast.Name):
+                v = n.ast.value
+                d = dict(env)
+                if isinstance(v, ast.Constant) and v.value is None:
+                    d[tg[0].id] = "None"
+                elif q.dotted(v) is not None:
+                    d[tg[0].id] = resolve(v, env)
+                else:
+                    d[tg[0].id] = "?"
+                env = frozenset(d.items())
         if n.id in other_ids:
             esc = False
-        if n.id in esc_ids:
-            esc = True
-        return (esc, raw, none)
+        if n.id in esc_nodes:
+            src = resolve(esc_nodes[n.id].exprs[0], env)
+            if src == cur:
+                esc = True
+            else:
+                bad = src
+        return (esc, raw, none, env, bad)
 
     def edge(n, kind, val):
-        esc, raw, none = val
+        esc, raw, none, env, bad = val
         if n.kind == "test" and kind in ("true", "false"):
-            t, pol = canon_fact(n.ast, kind == "true")
+            try:
+                sub = ast.parse(resolve(n.ast, env), mode="eval").body
+            except SyntaxError:
+                return val
+            try:
+                c = q.fold(sub, {})
+                if bool(c) != (kind == "true"):
+                    return None
+                return val
+            except q.NotFoldable:
+                pass
+            t, pol = canon_fact(sub, kind == "true")
             if t == raw_t:
                 if raw is not None and raw != pol:
                     return None
@@ -123,15 +162,28 @@ def rule_escape_before_append(ck):
                 if none is not None and none != pol:
                     return None
                 none = pol
-        return (esc, raw, none)
+            elif t == cur:
+                # truthiness of the setting: a falsy setting names no function
+                if none is not None and none != (not pol):
+                    return None
+                none = not pol
+        return (esc, raw, none, env, bad)
 
-    seen = explore(cfg, (False, None, None), transfer, lambda t: False, edge_transfer=edge, follow_exc=False)
+    seen = explore(cfg, (False, None, None, frozenset(), None), transfer, lambda t: False, edge_transfer=edge, follow_exc=False)
     n_states = 0
     tri = {True: "yes", False: "no", None: "untested"}
+    reported = set()
     for aid in app_ids:
-        for _facts, (esc, raw, none) in sorted(seen.get(aid, ()), key=repr):
+        for _facts, (esc, raw, none, env, bad) in sorted(seen.get(aid, ()), key=repr):
             n_states += 1
+            key = (esc, raw, none, bad)
+            if key in reported:
+                continue
+            reported.add(key)
             ok = esc or raw is True or none is True
+            if bad is not None and not ok:
+                ck.ob(rid, g, app_ids[aid].call, False, "the escaping function is the autoescape of the template currently being generated (%s), found %s" % (cur, bad), construct="escape source %s" % bad)
+                continue
             ck.ob(rid, g, app_ids[aid].call, ok, "append of %s requires the escaped form unless the path is raw or autoescape is None: escaped=%s, raw=%s, autoescape-is-None=%s" % (var, esc, tri[raw], tri[none]),
                   construct="append state escaped=%s raw=%s none=%s" % (esc, tri[raw], tri[none]))
     ck.floor(rid, n_states, 1, "states at the append emission")
@@ -287,7 +339,7 @@ def rule_include_scope(ck):
             ck.use(f)
             withs = [x for x in q.walk_body(f.node) if isinstance(x, ast.With) and any(y is c for y in ast.walk(x))]
             incl = [it.context_expr for x in withs for it in x.items if isinstance(it.context_expr, ast.Call) and q.dotted(it.context_expr.func) == w + ".include"]
-            ok = len(incl) >= 1 and incl[-1].args and q.dotted(incl[-1].args[0]) == own[1]
+            ok = len(incl) >= 1 and incl[-1].args and (q.dotted(incl[-1].args[0]) == own[1] or xunparse(f.node, incl[-1].args[0]) == xunparse(f.node, ast.parse(own[1], mode="eval").body))
             ck.ob(rid, f, c, bool(ok), "the body of another template (%s) is generated inside `with %s.include(%s, ...)`" % (d, w, own[1]))
     ck.floor(rid, n, 2, "foreign-body generate() calls")
     # include(): push old, install new; exit: restore what was pushed
@@ -300,7 +352,7 @@ def rule_include_scope(ck):
     idx = None
     stack = None
     if ok_push:
-        arg = pushes[0][1].args[0]
+        arg = alias_expand(inc.node, pushes[0][1].args[0])
         stack = q.dotted(pushes[0][1].func.value)
         if isinstance(arg, ast.Tuple):
             pos = [i for i, e in enumerate(arg.elts) if q.dotted(e) == "self.current_template"]
@@ -308,7 +360,7 @@ def rule_include_scope(ck):
         elif q.dotted(arg) == "self.current_template":
             idx = -1  # the template itself is pushed
     ck.ob(rid, inc, pushes[0][1] if pushes else inc.node, ok_push and idx is not None, "include() saves the current template on a stack")
-    ok_store = len(stores) == 1 and q.dotted(stores[0].ast.value) == ip[0]
+    ok_store = len(stores) == 1 and xdotted(inc.node, stores[0].ast.value) == ip[0]
     ck.ob(rid, inc, stores[0].ast if stores else inc.node, ok_store, "include() installs the included template as current")
     if ok_push and stores:
         ck.ob(rid, inc, stores[0].ast, cfg.dominates(pushes[0][0], stores[0]), "the old template is saved before it is overwritten")
@@ -478,7 +530,7 @@ def rule_default_escape(ck):
     rets = [n for n in q.walk_body(xe.node) if isinstance(n, ast.Return)]
     ck.floor(rid, len(rets), 1, "returns in xhtml_escape")
     for r in rets:
-        c = r.value
+        c = alias_expand(xe.node, r.value)
         ok = isinstance(c, ast.Call) and q.dotted(c.func) == "html.escape" and len(c.args) >= 1
         quote = (q.kwarg(c, "quote") or (c.args[1] if len(c.args) > 1 else None)) if ok else None
         ck.ob(rid, xe, r, ok and (quote is None or q.is_const(quote, True)), "xhtml_escape returns html.escape(...) with quote escaping on")
